@@ -120,7 +120,11 @@ VARIES = (
     "re-parented inside an object, X25519 / X448 certificate keys, altered size fields of "
     "SGX envelopes, firmware images with areas on both sides of 2^31, late answers inside "
     "the PIN change dialogue, the same PIN / hash / path used twice in one process under "
-    "different options")
+    "different options, members of JSON objects in any order, X.509 chains signed with SHA-384 / "
+    "SHA-512, device answers with bytes beyond those the middleware reads, script-sigs of up "
+    "to 1001 operations, 66..257 clients queued behind a slow request, the current PIN given "
+    "again as the new one, firmware status words inside the bring-up of a repair, "
+    "certificates that expired seconds ago")
 
 IDEAS = (
     "a code path only reached through a rarely used command-line option, environment variable or "
